@@ -147,6 +147,12 @@ Theorem C13_line_unmarked_kept : forall p t marked k,
 Proof. exact line_adaptive_unmarked. Qed.
 Print Assumptions C13_line_unmarked_kept.
 
+(* histories: through ANY sequence of uniform and adaptive steps (whatever tables and markings the steps use) the
+   vertices of the initial mesh keep index and position *)
+Theorem C13_history_old_vertices : forall steps p, firstn (length p) (fold_left apply_rstep steps p) = p.
+Proof. exact history_old_vertices. Qed.
+Print Assumptions C13_history_old_vertices.
+
 (* non-vacuity: two triangles sharing facet 2 (their slot-2 facet); marking cell 0 makes cell 0 red and the
    closure marks nothing else of cell 1 than the shared facet: cell 1 is green *)
 Example C13_instance :
